@@ -458,17 +458,9 @@ pub fn run_connection(conn: &mut Conn<'_, '_>, steps_left: &mut u32) -> ConnEnd 
                 }
                 let spec = with(gen_disconnect);
                 let r = do_disconnect(conn, &spec);
-                // (WriteZero from a contract-violating transport may or may not have closed the
-                // handle: judged by is_connected() below)
-                was_disconnect = r != Res::Cancelled && r != Res::WriteZero;
-                if r == Res::WriteZero {
-                    with(|w| w.disconnect_expected = None);
-                    if !conn.is_connected() {
-                        dead_handle_probe(conn);
-                        return ConnEnd::Dead;
-                    }
-                    return ConnEnd::Drop;
-                }
+                // after disconnect() the handle is dead whatever the outcome, also when a
+                // contract-violating transport made a write return Ok(0)
+                was_disconnect = r != Res::Cancelled;
                 if r == Res::Cancelled && with(|w| w.cfg.guards) {
                     // guard: do not continue on a connection whose DISCONNECT was cut short
                     return ConnEnd::Drop;
@@ -816,6 +808,9 @@ fn burn_by_refused_requests(conn: &mut Conn<'_, '_>, n: u32) {
 /// waiting for PUBCOMP, then SUBSCRIBE/UNSUBSCRIBE waiting for their acks), then move the counter
 /// one full cycle so that the next allocations start at the first of them.
 fn dense_identifier_prefix(conn: &mut Conn<'_, '_>) {
+    if with(|w| w.conns[w.cur].max_qos < 2) {
+        return;
+    }
     let (n2, n1, off) = with(|w| {
         w.probe("dense_identifier_block");
         w.hold_pubcomp = true;
@@ -849,7 +844,7 @@ fn dense_identifier_prefix(conn: &mut Conn<'_, '_>) {
             s.payload_fails = false;
             s
         });
-        if do_publish(conn, &spec) != Res::OkOp {
+        if spec.qos != 2 || do_publish(conn, &spec) != Res::OkOp {
             break;
         }
         allocated += 1;
@@ -889,6 +884,56 @@ fn dense_identifier_prefix(conn: &mut Conn<'_, '_>) {
     }
 }
 
+/// C06: after one acknowledged publish, QoS 2 exchanges are opened one after the other, each
+/// receiving its PUBREC at once while every PUBCOMP is withheld, until the client refuses: the
+/// release list fills up with exchanges awaiting PUBCOMP, and one more must be refused, not dropped.
+fn release_saturation_prefix(conn: &mut Conn<'_, '_>) {
+    let opts = ExecOpts { cancellable: true, idle_cancel: true, budget_us: None, timer_is_idle: true };
+    let small = |w: &mut World, q: u8| {
+        let mut s = gen_publish(w, q);
+        s.payload.truncate(4);
+        s.props.clear();
+        s.correlate = None;
+        s.payload_fails = false;
+        s
+    };
+    if with(|w| w.conns[w.cur].max_qos < 2) {
+        return; // (a downgraded QoS 0 publish is not cancel-safe: not part of this prefix)
+    }
+    with(|w| w.probe("release_list_saturation"));
+    let first = with(|w| small(w, 1));
+    if first.qos != 1 || do_publish(conn, &first) != Res::OkOp {
+        return;
+    }
+    for _ in 0..6 {
+        if do_wait(conn, Wait::Poll, Some(opts)) == Res::Cancelled {
+            break;
+        }
+    }
+    with(|w| w.hold_pubcomp = true);
+    let n = 9 + with(|w| w.tape.choose(6));
+    for _ in 0..n {
+        let spec = with(|w| small(w, 2));
+        if spec.qos != 2 {
+            break; // the arena guard turned it into a QoS 0 publish: not part of this prefix
+        }
+        let r = do_publish(conn, &spec);
+        if r.is_fatal() || !conn.is_connected() {
+            break;
+        }
+        for _ in 0..6 {
+            let r = do_wait(conn, Wait::Poll, Some(opts));
+            if r == Res::Cancelled || r.is_fatal() {
+                break;
+            }
+        }
+        if !conn.is_connected() {
+            break;
+        }
+    }
+    with(|w| w.hold_pubcomp = false);
+}
+
 pub fn scenario_general(session: &mut Session<'_>) {
     let (max_conns, mut steps_left, burn) = with(|w| (w.cfg.max_conns, w.cfg.max_steps, w.cfg.id_burn));
     let mut drained = false;
@@ -910,7 +955,16 @@ pub fn scenario_general(session: &mut Session<'_>) {
                 if ci == 0 && with(|w| w.cfg.profile == Profile::IdWrap && w.cfg.dense_ids) {
                     dense_identifier_prefix(&mut conn);
                 }
-                let end = run_connection(&mut conn, &mut steps_left);
+                if ci == 0 && with(|w| w.cfg.profile == Profile::Quota && w.tape.chance(1, 6)) {
+                    release_saturation_prefix(&mut conn);
+                }
+                let end = if !conn.is_connected() {
+                    // the connection died inside one of the prefixes above
+                    dead_handle_probe(&mut conn);
+                    ConnEnd::Dead
+                } else {
+                    run_connection(&mut conn, &mut steps_left)
+                };
                 let last = matches!(end, ConnEnd::OutOfSteps) || ci + 1 == max_conns;
                 match end {
                     ConnEnd::Forget => {
